@@ -205,6 +205,20 @@ CLAIMED = {
             'partial: only the single step is proved; parameter substitution, constraint references and class fields are covered by the '
             'differential search only; three known findings',
             'Coq proof (single step) + refutation witnesses + differential correspondence + sugared-vs-expanded differential search'),
+    'C01': ('proof',
+            'partial. Type checking is rustc\'s and is not modelled. Modelled: the fragment of Rust\'s static semantics the generator can break '
+            'by how it builds names and nesting -- unique item / member names, resolution of every mentioned type name, finite size. Theorems '
+            'say what the checker\'s verdict guarantees (NoDup names; every mentioned name is an item or in the universe; an ordering in which '
+            'every by-value containment goes backwards excludes any cycle, through any number of items). Correspondence: the checker runs '
+            'inside Coq on the syn projection of each generated module and its three verdicts are compared with rustc\'s '
+            'E0428/E0124, E0412, E0072 for that module. Search for the property itself: generator outputs (constructed types to depth 4, '
+            'values and DEFAULTs, multi-module sets, recursion) under random backend configurations; every Ok-without-warnings result is '
+            'written into one crate depending on rasn 0.27.0 (+ lazy_static) and `cargo check`ed; each rustc error is mapped back to its '
+            'input; eleven known classes are probed on every run and kept out of the bulk generator',
+            '§6 C01',
+            'partial: no theorem about type checking; the generator is steered away from eleven known failing classes, so a new failure '
+            'inside such a class is only seen through its probe',
+            'Coq proof (name/resolution/finite-size checker) + correspondence against rustc diagnostics + cargo check of generated bindings'),
     'C08': ('proof',
             'partial. Proved for every input: the nestable-comment scanner never slices out of range; the error-excerpt arithmetic '
             '(until_next_unindented, contextualize) stays in range and on character boundaries for every report the position '
